@@ -39,7 +39,7 @@ def gen_cases(tier, seed):
         cases.append({"id": "F/%d/%d" % (seed, i), "seed": int(rng.integers(0, 2 ** 31)), "threads": int([4, 8, 8, 16][int(rng.integers(0, 4))]),
                       "ops_per_thread": int(rng.integers(1, 3)), "scheme": ["simple", "hive"][i % 2], "nrg": int(rng.integers(30, 70)),
                       "yield_p": [0.0, 0.05, 0.2][i % 3], "kind": "read", "fresh": True})
-    for i in range(12 if tier == "quick" else 200):
+    for i in range(30 if tier == "quick" else 300):
         cases.append({"id": "W/%d/%d" % (seed, i), "seed": int(rng.integers(0, 2 ** 31)), "threads": int([2, 4, 8][int(rng.integers(0, 3))]),
                       "yield_p": [0.0, 0.05][i % 2], "kind": "write", "parts": int(rng.integers(3, 9))})
     return cases
